@@ -7,6 +7,7 @@ import ast
 from ..cfg import Oracle, build_cfg
 from ..index import AnalysisError, UNKNOWN, norm, unparse
 from ..report import Ctx
+from ..terms import evaluator, show
 from ..util import LockSets, arg, callee_attr, calls_in_node, cfg_nodes_with_call
 from ..wire import ReaderTranslator, canon_reader
 from ._chan import GB, WRITELOCK
@@ -51,18 +52,30 @@ def check(ctx: Ctx) -> None:
         if len(st) != 1 or unparse(st[0].value) != fi.params()[2]:
             ob.violation(fi, fi.node, "ChannelFactory.count is not initialised from the start count")
         fn = repo.func(f"{GB}.ChannelFactory.new")
-        incs = [n for n in repo.own_nodes(fn) if isinstance(n, ast.AugAssign) and unparse(n.target) == "self.count"]
-        ob.require(len(incs) == 1, "`self.count += step` not found in new()")
-        step = repo.fold_in(incs[0].value, fn)
-        ob.site(fn, incs[0], "allocation step", step=step)
-        if not (isinstance(incs[0].op, ast.Add) and step == 2):
-            ob.violation(fn, incs[0], f"the id counter advances by {step!r} instead of 2: ids of the two sides collide")
-        # inside new(): the counter only ever advances by the step (parity is invariant)
-        for n in repo.own_nodes(fn):
-            if isinstance(n, ast.Assign) and any(unparse(t) == "self.count" for t in n.targets):
-                ob.violation(fn, n, f"the id counter is re-assigned (`{norm(n)}`) instead of only advancing by the step: its parity can flip and both sides then allocate the same ids")
-            if isinstance(n, ast.AugAssign) and unparse(n.target) == "self.count" and n is not incs[0]:
-                ob.violation(fn, n, "a second update of the id counter")
+        evn = evaluator(repo, fn)
+        COUNT = ("sym", "self.count")
+        idp = ("sym", fn.params()[1])
+        nalloc = 0
+        for (pth, st) in evn.run(limit=4000):
+            if pth[-1][0] != evn.cfg.exit.id:
+                continue
+            final = st.env.get("self.count", COUNT)
+            auto = st.known.get(("cmp", "is", idp, ("const", None)))
+            if auto is True:
+                nalloc += 1
+                step = final[3][1] if final[0] == "bin" and final[1] == "Add" and final[2] == COUNT and final[3][0] == "const" else (
+                    final[2][1] if final[0] == "bin" and final[1] == "Add" and final[3] == COUNT and final[2][0] == "const" else None)
+                ob.site(fn, fn.node, "allocation step", step=step, count_after=show(final))
+                if final == COUNT:
+                    ob.violation(fn, fn.node, "an automatic id is handed out without advancing the counter: the next channel gets the same id", construct="no advance")
+                elif step is None:
+                    ob.violation(fn, fn.node, f"the id counter is re-assigned (`self.count = {show(final)}`) instead of only advancing by the step: its parity can flip and both sides then allocate the same ids",
+                                 construct="counter re-assigned")
+                elif step != 2:
+                    ob.violation(fn, fn.node, f"the id counter advances by {step!r} instead of 2: ids of the two sides collide", construct=f"step {step}")
+            elif final != COUNT:
+                ob.violation(fn, fn.node, "the id counter is changed although an explicit id was requested", construct="advance on explicit id")
+        ob.require(nalloc >= 1, "`self.count += step` not found in new()")
         # count is written nowhere else
         for f in repo.scan_funcs():
             for n in repo.own_nodes(f):
@@ -78,7 +91,7 @@ def check(ctx: Ctx) -> None:
             hit = None
             if isinstance(x, ast.Attribute) and x.attr == "count" and unparse(x.value) == "self":
                 hit = "count access"
-            if isinstance(x, ast.Subscript) and unparse(x.value) == "self._channels":
+            if isinstance(x, ast.Attribute) and x.attr == "_channels" and unparse(x.value) == "self":
                 hit = "_channels get-or-create"
             if hit:
                 n += 1
@@ -87,17 +100,32 @@ def check(ctx: Ctx) -> None:
                 if WRITELOCK not in held:
                     ob.violation(fn, x, f"{hit} outside _writelock: two threads can obtain the same id / two Channel objects for one id")
         ob.require(n >= 4, f"{n} counter/table accesses in new() (floor 4)")
-        # id taken and incremented without anything in between that could fail
-        asg = [x for x in repo.own_nodes(fn) if isinstance(x, ast.Assign) and unparse(x.value) == "self.count"]
-        ob.require(len(asg) == 1, "`id = self.count` not found")
-        # the created channel gets the allocated id and the factory's gateway
-        mk = [c for c in repo.calls_in(fn) if isinstance(c.func, ast.Name) and c.func.id == "Channel"]
-        ob.require(len(mk) == 1, "Channel(...) not found in new()")
-        if [unparse(a) for a in mk[0].args] != ["self.gateway", unparse(asg[0].targets[0])]:
-            ob.violation(fn, mk[0], "the new Channel is not created with (gateway, allocated id)")
-        st = repo.parent(mk[0])
-        if not (isinstance(st, ast.Assign) and any(isinstance(t, ast.Subscript) and unparse(t.value) == "self._channels" and unparse(t.slice) == unparse(asg[0].targets[0]) for t in st.targets)):
-            ob.violation(fn, mk[0], "the new Channel is not registered under its id")
+        # the created channel gets the allocated id and the factory's gateway, and is registered under that id
+        nmk = 0
+        for (pth, st) in evn.run(limit=4000):
+            if pth[-1][0] != evn.cfg.exit.id:
+                continue
+            auto = st.known.get(("cmp", "is", idp, ("const", None)))
+            want_id = COUNT if auto is True else idp
+            mk = [e for e in st.events if e.kind == "call" and e.callee == "Channel"]
+            if auto is None:
+                ob.violation(fn, fn.node, "new() does not distinguish a requested id from an automatic one")
+                continue
+            looked = [e for e in st.events if (e.kind == "call" and e.callee == "self._channels.get" and e.args[:1] == (want_id,))]
+            if mk:
+                nmk += 1
+                if mk[0].args != (("sym", "self.gateway"), want_id):
+                    ob.violation(fn, mk[0].node, "the new Channel is not created with (gateway, allocated id)")
+                reg = [e for e in st.events if e.kind == "store" and e.target == "self._channels" and e.key == want_id and e.value == mk[0].result]
+                if not reg:
+                    ob.violation(fn, mk[0].node, "the new Channel is not registered under its id")
+                if st.ret != mk[0].result:
+                    ob.violation(fn, mk[0].node, "new() does not return the channel it created")
+            else:
+                ok = st.ret in [("idx", ("sym", "self._channels"), want_id)] + [e.result for e in looked]
+                if not ok:
+                    ob.violation(fn, fn.node, f"new() returns {show(st.ret) if st.ret else None}: not the channel registered under the id")
+        ob.require(nmk >= 1, "Channel(...) not found in new()")
 
     with ctx.obligation("C18.c", "channel-codec") as ob:
         wt = writer_terms(repo)
@@ -108,6 +136,7 @@ def check(ctx: Ctx) -> None:
         if term != [("OP", op), ("INT4", "v.id")]:
             ob.violation(m, m.node, f"save_Channel writes {term!r} instead of CHANNEL + int4(id)")
         f, rterm = rt[op]
+        f = repo.func(f.qualname)
         ob.site(f, None, "load_channel connects to channelfactory.new(<the id read>)", term=repr(rterm))
         if rterm != [("READ", ("const", 4)), ("PUSH", ("channel", ("int4", ("R", 0))))]:
             ob.violation(f, f.node, f"load_channel does not rebuild the channel from the id it read: {rterm!r}")
